@@ -87,7 +87,11 @@ inline void build(Node &n, int &next_port, int &next_node)
         }
     }
     int nid = n.id;
-    if(n.default_handler) n.built.reset(new GenPorts(v, [nid](const char *msg, rtosc::RtData &d) { note(DEFAULT, nid, msg, d); }));
+    if(n.default_handler && n.fat_callbacks) {
+        struct Fat { int id; char pad[36]; } fat; memset(&fat, 0, sizeof fat); fat.id = nid;
+        n.built.reset(new GenPorts(v, [fat](const char *msg, rtosc::RtData &d) { note(DEFAULT, fat.id + fat.pad[5], msg, d); }));
+    }
+    else if(n.default_handler) n.built.reset(new GenPorts(v, [nid](const char *msg, rtosc::RtData &d) { note(DEFAULT, nid, msg, d); }));
     else n.built.reset(new GenPorts(v));
 }
 
